@@ -10,6 +10,13 @@ COMMON_NOTE = ('Trusted base: z3 4.x/5.1 (python3-vt), the symx forking engine, 
                'reals), sizes beyond the stated bounds, GPU, complex dtypes. ')
 
 CHECKS = {
+ 'C17': dict(
+    text='The two grammars are chosen by solver variables from a universe of rule skeletons over shared node/edge ids and of nonterminal names built to provoke pairing clashes; conjoin_hrgs must produce exactly one rule per conjoinable pair (conjoinability by the '
+         'definition), each carrying nodes, externals, the paired nonterminal edges and both sets of terminal edges, under an injective naming of pairs disjoint from existing labels, with start = pair of starts; terminal conflicts raise ValueError; arguments untouched. '
+         'Rule-level exactness plus injective naming gives the one-to-one correspondence of derivations by induction on depth.',
+    note='Bounds: <=2 rules per grammar, 4 (quick) / 5 (thorough) skeletons, 3+3 nonterminal names, 5 label variants. Derivation sets are not enumerated; the correspondence of derivations is argued from the rule-level result. '
+         'Symbolic-string exploration of unique_label_name / nonterminal_pairs (CrossHair) was not built.',
+    technique='bounded symbolic execution (symbolic grammar structure) + definitional oracle', design='5/C17'),
  'C15': dict(
     text='One step from an arbitrary host: host graph and replacement are chosen by solver variables from a universe built around repeated attachment nodes, repeated labels, nullary edges and ill-typed replacements; replace_edge is compared with its definition '
          '(edge removed, externals identified in order, fresh distinct copies, labels and attachment order kept, frame untouched, wrong type rejected without side effects). Order independence: the rewriting order of each derivation tree is a symbolic schedule; '
